@@ -131,7 +131,13 @@ def check_pair(small, large, inputs):
       same = all(np.array_equal(r1[1][k][n], r2[1][k][n], equal_nan=True)
                  for k in r1[1] for n in r1[1][k])
       if not same:
-        bad.append(('C16:interpreter-outputs-differ', 'outputs of the two serialisations differ'))
+        # a model whose OWN two runs disagree (F20: the hybrid depthwise kernel on
+        # per-tensor weights reads uninitialised data) has no well-defined output
+        r1b = og.run_interpreter(small, inputs)
+        stable = r1b[0] == 'ok' and all(np.array_equal(r1[1][k][n], r1b[1][k][n], equal_nan=True)
+                                        for k in r1[1] for n in r1[1][k])
+        if stable:
+          bad.append(('C16:interpreter-outputs-differ', 'outputs of the two serialisations differ'))
   # runtime assumption of the theorem: both encodings have the same padded length
   # (the first region starts where the padded pass-2 flatbuffer ends)
   obj = raw_object(large)
